@@ -223,7 +223,8 @@ def stack_check(run, r, tier, seed, log=print):
     if not idx:
         return dict(note='stack definition not in corpus')
     i = idx[0]
-    probes = {'long token': b'a' * 64, 'many tokens': b'ab', 'consecutive skips': b'x' * 64, 'skips and tokens': b'xxa', 'errors': b'z'}
+    probes = {'long token': b'a' * 64, 'many tokens': b'ab', 'consecutive skips': b'x' * 64, 'skips and tokens': b'xxa', 'errors': b'z',
+              'consecutive skips decided by a callback': b'y' * 64, 'skip items with a callback': b'wx', 'every kind of skip in turn': b'xyw'}
     for cfgname in r['zoo_out']:
         if not cfgname.startswith('sm') or 'trace' in cfgname or r['zoo_out'][cfgname] is None:
             continue
